@@ -291,13 +291,15 @@ func operatorBody(c *mc.Ctx) {
 		// let every subject receive one more event, whose supplied state is judged like the others
 		ck := checkpoint()
 		if ck != nil {
-			c.Op("Checkpoint(%d); a new operator is deployed from it; one more event per key", ck.CheckpointId)
+			c.Op("Checkpoint(%d); a new operator is deployed from it; three more events (key a, key ab, key a again)", ck.CheckpointId)
 			stop()
 			ckpts = []*snapshotpb.OperatorCheckpoint{ck}
 			h.restored = true
 			start()
-			for _, sub := range opSubjects {
-				send(&workerpb.Event{Event: &workerpb.Event_KeyedEvent{KeyedEvent: &handlerpb.KeyedEvent{Key: []byte(sub), Value: []byte("P|z|last|1"), Timestamp: timestamppb.New(time.Unix(1, 0))}}}, "event")
+			// first key, second key, first key again: with a batch size of 3 one batch holds a key
+			// twice around another key
+			for i, sub := range []string{opSubjects[0], opSubjects[1], opSubjects[0]} {
+				send(&workerpb.Event{Event: &workerpb.Event_KeyedEvent{KeyedEvent: &handlerpb.KeyedEvent{Key: []byte(sub), Value: []byte(fmt.Sprintf("P|z|last%d|1", i)), Timestamp: timestamppb.New(time.Unix(1, 0))}}}, "event")
 			}
 			shim.Sleep(15 * time.Millisecond)
 			checkpoint()
